@@ -87,6 +87,10 @@ pub fn worker_main(opts_path: &str, out_path: &str) {
 }
 
 pub fn run_worker(o: &DumpOpts, release: bool) -> WorkerOutcome {
+    run_worker_wall(o, release, WALL_LIMIT_S)
+}
+
+pub fn run_worker_wall(o: &DumpOpts, release: bool, wall_limit_s: u64) -> WorkerOutcome {
     let dir = crate::target::new_dir("wk");
     let (op, rp) = (format!("{dir}/opts.json"), format!("{dir}/result.json"));
     std::fs::write(&op, serde_json::to_vec(o).unwrap()).unwrap();
@@ -115,7 +119,7 @@ pub fn run_worker(o: &DumpOpts, release: bool) -> WorkerOutcome {
             Ok(None) => {}
             Err(e) => return WorkerOutcome::Harness(format!("wait: {e}")),
         }
-        if t0.elapsed().as_secs() > WALL_LIMIT_S {
+        if t0.elapsed().as_secs() > wall_limit_s {
             break None;
         }
         std::thread::sleep(std::time::Duration::from_millis(2));
@@ -730,8 +734,9 @@ pub fn run_pure(rep: &mut Report, n: u64) {
 }
 
 pub fn run(rep: &mut Report, thorough: bool, release: bool) {
-    rep.rule = "live dumps in watchdogged worker subprocesses (RLIMIT_CPU 20 s, RLIMIT_AS 6 GiB, 90 s wall watchdog) of targets that map hostile linker chains (18 variants), corrupted ELF files under hostile names, /dev/shm files (inotify IN_OPEN monitor), a short /SYSV-like file name, hostile thread names; direct auxv extremes; crash registers drawn from {0,1,7,MAX-k,top of user space,vsyscall,every mapping bound +-1}; random option sets. Plus pure entry points (path/version derivation over generated names, get_stack_info over generated layouts) in-process. Outcome classes: ok/err fine; panic, abort, CPU limit, wall timeout are violations. distinct = hash(option set); non-trivial = every case".into();
+    rep.rule = "live dumps in watchdogged worker subprocesses (RLIMIT_CPU 20 s, RLIMIT_AS 6 GiB, 90 s wall watchdog) of targets that map hostile linker chains (18 variants), corrupted ELF files under hostile names, /dev/shm files (inotify IN_OPEN monitor), a short /SYSV-like file name, hostile thread names; targets whose thread-group leader has exited (the stop poll can never succeed) under stop timeouts of 0 us .. 30 ms; direct auxv extremes; crash registers drawn from {0,1,7,MAX-k,top of user space,vsyscall,every mapping bound +-1}; random option sets. Plus pure entry points (path/version derivation over generated names, get_stack_info over generated layouts) in-process. Outcome classes: ok/err fine; panic, abort, CPU limit, wall timeout are violations. distinct = hash(option set); non-trivial = every case".into();
     run_live(rep, thorough, release);
+    unstoppable_leader(rep, thorough, release);
     if !release {
         run_memory_images(rep, thorough);
         run_pure(rep, if thorough { 400_000 } else { 40_000 });
@@ -823,4 +828,56 @@ pub fn run_memory_images(rep: &mut Report, thorough: bool) {
         }
     }
     rep.require("target_memory_images_read", 500);
+}
+
+
+// ---------------------------------------------------------------------------------------------
+// (g) a target that can never be seen stopped, under extreme stop timeouts
+// ---------------------------------------------------------------------------------------------
+
+/// The thread-group leader has exited: /proc/<pid>/stat shows `Z` for ever, so the writer's stop
+/// poll can only end through its timeout - whatever value the caller configured, including zero
+/// and sub-millisecond ones. The dump must still return (Ok or Err) in bounded time.
+fn unstoppable_leader(rep: &mut Report, thorough: bool, release: bool) {
+    let mut rng = Rng::new(rep.seed.wrapping_mul(77_003));
+    let timeouts_us: Vec<u64> = if thorough { vec![0, 1, 500, 999, 1000, 1001, 1999, 2000, 30_000, 100_000] } else { vec![0, 500, 999, 1000, 30_000] };
+    for us in timeouts_us {
+        let mut b = Builder::new();
+        for _ in 0..2 {
+            b.sentinel(&mut rng, Mode::Pause, &StackShape::default(), None, None);
+        }
+        b.spec.leader_exit = true;
+        let t = match Target::spawn(b.spec.clone(), &b.opts) {
+            Ok(t) => t,
+            Err(e) => {
+                rep.inconclusive(format!("exited-leader target did not start: {e}"));
+                continue;
+            }
+        };
+        let t0 = std::time::Instant::now();
+        while t.thread_status(t.pid).map(|s| s.0) != Some('Z') && t0.elapsed().as_secs() < 20 {
+            std::thread::sleep(std::time::Duration::from_millis(1));
+        }
+        for blamed in [t.manifest.tids[0], t.pid] {
+            let mut o = DumpOpts::new(t.pid, blamed);
+            o.stop_timeout_ms = None;
+            o.stop_timeout_us = Some(us);
+            let r = run_worker_wall(&o, release, 25);
+            unsafe {
+                libc::kill(t.pid, libc::SIGCONT);
+            }
+            rep.case(fnv(format!("unstoppable/{us}/{}", blamed == t.pid).as_bytes()), true);
+            rep.count("worker_runs[unstoppable-leader]", 1);
+            match &r {
+                WorkerOutcome::Ok => rep.count("outcome_ok", 1),
+                WorkerOutcome::Err(_) => rep.count("outcome_err", 1),
+                WorkerOutcome::Harness(e) => rep.inconclusive(format!("worker harness error: {e}")),
+                _ => {}
+            }
+            if let Some(sig) = classify(&r) {
+                rep.violation(&sig, json!({"category": "unstoppable-leader", "case": format!("thread-group leader exited, stop timeout {us} us, blamed = {}", if blamed == t.pid { "the exited leader" } else { "a live thread" }), "outcome": format!("{r:?}"), "profile": if release { "release" } else { "debug" }}));
+            }
+        }
+    }
+    rep.require("worker_runs[unstoppable-leader]", 4);
 }
